@@ -5,6 +5,7 @@ import hashlib
 import hmac
 
 import ecref
+import deriv_fastec as F
 
 SECP, NIST, ED, EDB = 0, 1, 2, 3
 CURVE_KEY = {SECP: b"Bitcoin seed", NIST: b"Nist256p1 seed", ED: b"ed25519 seed", EDB: b"ed25519 seed"}
@@ -36,11 +37,11 @@ def is_ed(curve):
 def pub_bytes(curve, k32):
     """serP(point(k)): SEC1 compressed for the Weierstrass curves, 0x00 || A for the ed25519 schemes."""
     if curve == ED:
-        return b"\x00" + ecref.ED25519.pub_rfc8032(k32, sha512)
+        return b"\x00" + F.ed_pub(bytes(k32), "sha512")
     if curve == EDB:
-        return b"\x00" + ecref.ED25519.pub_rfc8032(k32, blake2b512)
+        return b"\x00" + F.ed_pub(bytes(k32), "blake2b")
     C = WEIER[curve]
-    return C.ser_c(C.mul(int.from_bytes(k32, "big"), C.G))
+    return C.ser_c(F.w_base_mul(curve, int.from_bytes(k32, "big") % C.n))
 
 
 def master(curve, seed, hm=hmac512):
@@ -84,7 +85,7 @@ def ckd_pub(curve, K33, c, i, hm=hmac512):
     I = hm(c, K33 + ib)
     while True:
         il = int.from_bytes(I[:32], "big")
-        Ki = C.add(C.mul(il, C.G), Kpar) if il < C.n else None
+        Ki = C.add(F.w_base_mul(curve, il), Kpar) if il < C.n else None
         if il >= C.n or Ki is None:
             I = hm(c, b"\x01" + I[32:] + ib)
             continue
@@ -108,7 +109,7 @@ def retry_needed(curve, k32, pubc, c, i, hm=hmac512):
         return True
     if k32 is not None:
         return (il + int.from_bytes(k32, "big")) % C.n == 0
-    return C.add(C.mul(il, C.G), C.deser(pubc)) is None
+    return C.add(F.w_base_mul(curve, il), C.deser(pubc)) is None
 
 
 class Node:
